@@ -370,6 +370,19 @@ class C02(ValProp):
             vseq = r.choice([['list', ve, 4], ['vec', ve, 2]])
             t = r.choice([seq, ['cont', 'u8', seq, 'u16'], ['cont', vseq, seq, vseq], ['list', vseq, 3], ['cont', vseq, ['Bl', 5], 'u8', vseq]])
             out.append(show(['val', t, g.val(t, 30)]))
+        # variable-size sequences nested three and more levels deep, directly and through containers / unions
+        for _ in range(self.n(tier) // 6):
+            leaf = r.choice([['Bl', 8], ['bl', 9], ['list', 'u16', 3], ['union', 'none', 'u32']])
+            l1 = r.choice([['list', leaf, 4], ['vec', leaf, 2]])
+            mid = r.choice([['cont', 'u16', l1], ['list', l1, 3], ['vec', l1, 2], ['union', 'none', l1], ['cont', l1, 'u8', l1]])
+            l2 = r.choice([['list', mid, 4], ['vec', mid, 2]])
+            t = r.choice([l2, ['list', l2, 2], ['cont', 'u8', l2], ['vec', ['cont', l2], 2], ['list', ['list', l2, 2], 2]])
+            out.append(show(['val', t, g.val(t, 6)]))
+            if r.random() < 0.3:
+                out.append(show(['val', t, g.zero(t)]))
+            mv = g.max_val(t)
+            if mv is not None and r.random() < 0.3:
+                out.append(show(['val', t, mv]))
         return out
     rule = ('random (type, value) cases; encode_bytes, bytes(), serialize(stream) after a 3-byte prefix (content, '
             'return value, tell) against Spec.serialize; non-trivial/distinct as C01')
@@ -384,6 +397,8 @@ class C02(ValProp):
             out.append(F('prop', 'encode_bytes', py.get('p.bytes'), sb))
         if py.get('p.bytes2') != sb:
             out.append(F('prop', 'bytes()', py.get('p.bytes2'), sb))
+        if 'p.bytes3' in py and set(py['p.bytes3']) - {'1'}:
+            out.append(F('prop', 'bytes(sub-value) differs from its encode_bytes() (one flag per field / first and last element / union value)', py['p.bytes3'], 'all 1'))
         if py.get('p.stream') != '%s/%s/%s' % (sb, sl, sl):
             out.append(F('prop', 'serialize(stream)', py.get('p.stream'), '%s/%s/%s' % (sb, sl, sl)))
         if mo['i.bytes'] != sb or mo['i.cnt'] != sl:
@@ -413,6 +428,38 @@ class C03(ValProp):
                 # nearly full: drop / shorten something at random by re-sampling with the same shape bias
                 w = g.val(t, 40)
                 v = w if r.random() < 0.5 else v
+            out.append(show(['val', t, v]))
+        # fixed-length bit / byte / packed sequences of 3, 5, 6, 7 chunks whose LAST chunk(s) hold only zeros (and the
+        # mirror image: zeros first), bare and nested
+        for _ in range(self.n(tier) // 6):
+            chunks = r.choice([3, 3, 5, 6, 7])
+            zc = r.choice([1, 1, 2])
+            k = r.choice(['bv', 'Bv', 'vecu', 'vecb', 'bl', 'listu'])
+            if k in ('bv', 'bl'):
+                n_ = 256 * (chunks - 1) + r.choice([1, 88, 255, 256])
+                live = 256 * (chunks - zc)
+                body = ''.join(r.choice('01') for _ in range(live)) + '0' * (n_ - live)
+                if r.random() < 0.2:
+                    body = body[::-1]
+                t, v = ([k, n_] if k == 'bv' else ['bl', n_ + r.choice([0, 1, 300])]), 'b' + body
+            elif k == 'Bv':
+                n_ = 32 * (chunks - 1) + r.choice([1, 17, 32])
+                live = 32 * (chunks - zc)
+                t, v = ['Bv', n_], 'x' + bytes(r.getrandbits(8) | 1 for _ in range(live)).hex() + '00' * (n_ - live)
+            else:
+                e = r.choice(['u64', 'u16', 'u128']) if k != 'vecb' else 'bool'
+                per = 32 // UINT_W.get(e, 1)
+                n_ = per * (chunks - 1) + r.choice([1, per])
+                live = per * (chunks - zc)
+                vals = [g.max_val(e) for _ in range(live)] + ['0'] * (n_ - live)
+                t, v = (['vec', e, n_] if k != 'listu' else ['list', e, n_ + r.choice([0, 5, 1000])]), ['s'] + vals
+            c = r.random()
+            if c < 0.25:
+                t, v = ['cont', 'u8', t, 'u16'], ['s', '1', v, '2']
+            elif c < 0.35:
+                t, v = ['vec', t, 2], ['s', v, v]
+            elif c < 0.45:
+                t, v = ['union', 'none', t], ['u', 1, v]
             out.append(show(['val', t, v]))
         return out
     rule = ('random (type, value) cases; decode_bytes(encode) and deserialize(stream at offset 5, exact scope, 3 trailing '
@@ -495,7 +542,31 @@ class C04(HistProp):
         if case[0] == 'store':
             bump(stats, 'kinds', 'store:' + kind(case[1]))
             return StoreProp.compare_store(self, case, py, mo, stats, 'views')
+        if case[0] == 'histd':
+            bump(stats, 'kinds', 'default-lazy:' + kind(case[1]))
+            out = []
+            n = len(case) - 2
+            for i in range(n):
+                bump(stats, 'ops', case[2 + i][0])
+                want = 'err' if mo['%d.s' % i] == 'err' else 'ok'
+                if py.get('%d.p' % i) != want:
+                    out.append(F('corr', 'op %d %s ok/err' % (i, show(case[2 + i])), py.get('%d.p' % i), want))
+                    return out
+            if n:
+                last = '%d.' % (n - 1)
+                for pk, mk, what in (('end.read', last + 'scur', 'content'), ('end.bytes', last + 'sbytes', 'encoding'), ('end.root', last + 'sroot', 'root')):
+                    if py.get(pk) != mo.get(mk):
+                        out.append(F('prop', '%s after a history on the default value (nothing hashed or read on the way)' % what, py.get(pk), mo.get(mk)))
+            return out
         return self.compare_hist(case, py, mo, stats)
+
+    def shrink_candidates(self, case):
+        for c in Prop.shrink_candidates(self, case):
+            yield c
+        if case[0] == 'histd':
+            ops = case[2:]
+            for i in range(len(ops) - 1, -1, -1):
+                yield case[:2] + ops[:i] + ops[i + 1:]
 
     def generate(self, g, tier, focus=None):
         out = HistProp.generate(self, g, tier)
@@ -505,6 +576,21 @@ class C04(HistProp):
             v = g.val(t, 12)
             out.append(show(['store', t, v] + StoreGen(g, t, v).history(g.rng.choice([6, 15, 30]))))
         out += boundary_hist_cases(g, self.n(tier) // 2)
+        # histories on DEFAULT-constructed values (their backing shares one child object between the two sides of its
+        # pairs), nothing hashed or read before the end
+        r = g.rng
+        for _ in range(self.n(tier) // 3):
+            e = r.choice(['u64', 'u16', 'u8', 'bool', ['cont', 'u8', 'u16'], ['vec', 'u64', 8], ['bv', 600], ['list', 'u16', 9], ['Bv', 48],
+                          ['cont', 'u64', ['vec', 'u16', 40]]])
+            t = r.choice([['vec', e, r.choice([2, 4, 5, 8, 16])], ['bv', r.choice([512, 1024, 1000])], ['cont', 'u8', ['vec', e, 4], ['vec', e, 4]],
+                          ['vec', ['vec', e, 4], 4], ['list', ['vec', e, 4], 8]])
+            ops, _ = g.ops(t, g.zero(t), r.choice([1, 2, 4, 8]))
+            out.append(show(['histd', t] + ops))
+        for _ in range(self.n(tier) // 6):
+            u = ['union'] + (['none'] if r.random() < 0.5 else []) + [r.choice([['list', 'u16', 5], ['cont', 'u8', ['list', 'u8', 3]], ['bl', 12]])]
+            uv = ['u', len(u) - 2, g.val(u[-1], 4)]
+            t, v = r.choice([(['cont', 'u8', u, 'u16'], ['s', '1', uv, '2']), (['list', u, 3], ['s', uv, uv]), (['union', 'u8', u], ['u', 1, uv])])
+            out.append(show(['store', t, v] + StoreGen(g, t, v).history(r.choice([6, 12]))))
         if tier == 'thorough':
             # exhaustive: every op sequence of length <= 5 over a small alphabet, on small lists / bitlists
             import itertools
@@ -1672,6 +1758,15 @@ class StoreProp(Prop):
                 bv = 'b' + ''.join(r.choice('01') for _ in range(ln))
                 t, v = r.choice([(bl, bv), (['cont', 'u8', bl, 'u16'], ['s', '1', bv, '2']),
                                  (['list', bl, 3], ['s', bv, 'b1']), (['vec', ['cont', bl], 2], ['s', ['s', bv], ['s', 'b']])])
+            elif k % 10 == 8:
+                # unions whose selected option is a mutable composite, nested in containers / lists / unions: the value
+                # view of the union is one more link in the chain
+                u = ['union'] + (['none'] if r.random() < 0.5 else []) + [r.choice([['list', 'u16', 5], ['cont', 'u8', ['list', 'u8', 3]], ['bl', 12], ['vec', ['cont', 'u8'], 2]])
+                                                                         for _ in range(r.randint(1, 2))]
+                sel = len(u) - 2
+                uv = ['u', sel, g.val(u[1 + sel], 4)]
+                t, v = r.choice([(['cont', 'u8', u, 'u16'], ['s', '1', uv, '2']), (['list', u, 3], ['s', uv, uv]),
+                                 (['union', 'u8', u], ['u', 1, uv]), (['vec', ['cont', u], 2], ['s', ['s', uv], ['s', uv]])])
             else:
                 t = nested_ty(g, r.choice([1, 2, 2, 3]))
                 v = g.val(t, 12)
